@@ -192,6 +192,10 @@ var constraints = []constraint{
 	{name: "unknownReferenceCriterionType", expect: 0, apply: func(q M) { q["biases"] = oneBias("criteriaConcealment", M{"referenceCriterionType": "noSuchType"}) }},
 	{name: "distillationNegative", methods: []string{"electreIII"}, expect: 0, apply: func(q M) { mpOf(q)["electreDistillation"] = M{"a": -0.2, "b": 0.1} }},
 	{name: "distillationNegativeSlope", methods: []string{"electreIII"}, expect: 0, apply: func(q M) { mpOf(q)["electreDistillation"] = M{"a": -2.0, "b": 1.0} }},
+	{name: "distillationBarelyNegativeAtOne", methods: []string{"electreIII"}, expect: 0, apply: func(q M) { mpOf(q)["electreDistillation"] = M{"a": -0.3000000001, "b": 0.3} }},
+	{name: "distillationBarelyNegativeAtZero", methods: []string{"electreIII"}, expect: 0, apply: func(q M) { mpOf(q)["electreDistillation"] = M{"a": 0.0, "b": -1e-12} }},
+	{name: "distillationRoundingNegative", methods: []string{"electreIII"}, expect: 0, apply: func(q M) { mpOf(q)["electreDistillation"] = M{"a": -(0.1 + 0.2), "b": 0.3} }},
+	{name: "distillationZeroAtOne", methods: []string{"electreIII"}, expect: 200, apply: func(q M) { mpOf(q)["electreDistillation"] = M{"a": -0.3, "b": 0.3} }},
 	{name: "distillationZero", methods: []string{"electreIII"}, expect: 0, apply: func(q M) { mpOf(q)["electreDistillation"] = M{"a": 0.0, "b": 0.0} }},
 	{name: "distillationHuge", methods: []string{"electreIII"}, expect: 0, apply: func(q M) { mpOf(q)["electreDistillation"] = M{"a": 5.0, "b": 7.0} }},
 	{name: "zeroBoundingScaling", expect: 0, apply: func(q M) { q["biases"] = oneBias("fatigue", M{"function": "const", "params": M{"value": 0.1}, "allowedValuesRangeScaling": 0.0}) }},
